@@ -474,7 +474,16 @@ def rule_g(ctx, out):
         raise AnalysisError(f"only {n} section-assembling loops found in gasol_asm")
 
 
+def rule_h(ctx, out):
+    """Contracts, auxiliary data, data sections (string entries and nested child assemblies) and source lists come out as they went in:
+    the parse -> serialise round trip of C15.f on the document family, claimed here for the metadata sentence of C09 (the code of an
+    unselected or unoptimized contract is emitted through exactly this path)."""
+    from . import C15
+    C15.rule_f(ctx, out)
+
+
 RULES = [
+    ("C09.h", "auxiliary data, data sections (nested assemblies included) and source lists survive parse and serialise (shared with C15.f)", 32, rule_h),
     ("C09.e", "containers handed out per loop iteration are fresh", 5, rule_e),
     ("C09.a", "item field agreement (parser/serialiser)", 25, rule_a),
     ("C09.b", "items immutable; rebuild re-uses originals; who may construct", 9, rule_b),
